@@ -23,6 +23,7 @@ EXPLANATION = (
     "the two ParseModuleAndSourceInfoOptions literals of the manifest shortcut (T12)."
 )
 NOT_DECIDED = "value-level round trip for arbitrary module infos; equality of the two graphs"
+CONFIGS = ["default", "nofastcheck"]  # thorough tier also analyses the build without fast_check / symbols
 ASSUMPTIONS = ["serde derive semantics for rename_all / tag / untagged / flatten / default / skip_serializing_if as documented"]
 
 ROOT = "analysis::ModuleInfo"
